@@ -6,4 +6,14 @@ TEXT = {
         "level": "Generated search: tens of thousands (quick) to ~10^7 (thorough) offset multisets with up to floor((n-1)/3) adversarial values, n in 1..64, plus every sequence of length <=7 over a 5-value extreme alphabet with every admissible faulty subset. Exploration, not proof: absence of counterexamples among generated cases.",
         "note": "Trusts math/big and the Go sort used by the oracle; measurement timestamps are kept within +-100 years so time.Time.Sub does not saturate (outside the statement's domain).",
     },
+    "C04": {
+        "technique": "property-based testing (rapid) of the timestamp round trip relative to generated references, plus exhaustive enumeration of the nanosecond (10^9) and fraction (2^32) fields in the thorough tier; oracle = integer-arithmetic inverse (0 <= t - back <= 1 ns) and order preservation",
+        "level": "Generated search over (reference 1970..2500, delta in [-2^31 s, 2^31 s)) with mass on era rollovers and both window edges; the sub-second fields are enumerated completely in the thorough tier (strided in quick). Exploration: the (reference, delta) plane itself is sampled, not enumerated.",
+        "note": "Oracle uses only time.Unix/Unix()/Nanosecond() integer accessors (no time.Sub saturation). Found and repaired defect P1 (fix: 20cdc18).",
+    },
+    "C18": {
+        "technique": "property-based testing (rapid) against big-integer / rational reference arithmetic for each conversion; exhaustive sweep of the kernel's scaled-ppm range (thorough); metamorphic construction of CSPTP timestamps from a chosen true offset and delay",
+        "level": "Generated search over all int64 nanosecond counts and correction fields (corner-dense), the 48-bit timestamp range, drift/interval pairs and offset/delay/correction combinations up to 2^60 ns; the 6.6e7 scaled-ppm values are enumerated completely in the thorough tier. Exploration, not proof.",
+        "note": "Trusts math/big. Drift() is exercised on the real driver/clocks.SystemClock (no privileged call involved); Sleep/Step/Adjust of that clock are out of scope of C18.",
+    },
 }
